@@ -14,7 +14,7 @@ from concurrent.futures import ThreadPoolExecutor
 ROOT = os.path.dirname(os.path.dirname(os.path.abspath(__file__)))
 sys.path.insert(0, ROOT)
 from tools import vrun
-from tools.vrun import Break
+from tools.vrun import Break, WORK
 
 UNITS = ['sim', 'lex', 'upd', 'ptab', 'qbk', 'arith', 'semk', 'ovl', 'scope', 'sigs', 'objm', 'trk', 'cli', 'qev', 'cyc', 'ldsh', 'pann', 'tfa']          # extended as units are built (see units/*.py)
 NCPU = os.cpu_count() or 8
@@ -76,7 +76,7 @@ def main():
     tier = args.tier if args.tier in ('quick', 'thorough') else 'quick'
     seed = int(os.environ.get('VERIF_SEED', '1') or 1)
     t_start = time.time()
-    work = os.path.join(ROOT, '.work', '%s-%s' % (prop, tier))
+    work = os.path.join(WORK, '%s-%s' % (prop, tier))
     if os.path.isdir(work):
         shutil.rmtree(work)
     os.makedirs(work)
